@@ -84,6 +84,8 @@ impl Database {
             names.reset();
         }
         zones.reset();
+        #[cfg(jiff_verif)]
+        crate::__verif::event(crate::__verif::ZONEINFO_RESET);
     }
 
     pub(crate) fn get(&self, query: &str) -> Option<TimeZone> {
@@ -113,6 +115,8 @@ impl Database {
                         czone.expiration,
                         czone.last_modified,
                     );
+                    #[cfg(jiff_verif)]
+                    crate::__verif::event(crate::__verif::ZONEINFO_FAST_HIT);
                     return Some(czone.tz.clone());
                 }
             }
@@ -137,6 +141,8 @@ impl Database {
         // complicated. (And what happens if the I/O becomes outdated by the
         // time you acquire the lock?)
         let info = names.get(query)?;
+        #[cfg(jiff_verif)]
+        crate::__verif::event(crate::__verif::ZONEINFO_BETWEEN_LOCKS);
         let mut zones = self.zones.write().unwrap();
         let ttl = zones.ttl;
         match zones.get_zone_index(query) {
@@ -145,9 +151,15 @@ impl Database {
                 if czone.revalidate(&info, ttl) {
                     // Metadata on the file didn't change, so we assume the
                     // file hasn't either.
+                    #[cfg(jiff_verif)]
+                    crate::__verif::event(
+                        crate::__verif::ZONEINFO_REVALIDATE_OK,
+                    );
                     return Some(czone.tz.clone());
                 }
                 // Revalidation failed. Re-read the TZif data.
+                #[cfg(jiff_verif)]
+                crate::__verif::event(crate::__verif::ZONEINFO_RELOAD);
                 let czone = match CachedTimeZone::new(&info, zones.ttl) {
                     Ok(czone) => czone,
                     Err(_err) => {
@@ -175,6 +187,8 @@ impl Database {
                 };
                 let tz = czone.tz.clone();
                 zones.zones.insert(i, czone);
+                #[cfg(jiff_verif)]
+                crate::__verif::event(crate::__verif::ZONEINFO_INSERT);
                 Some(tz)
             }
         }
@@ -417,6 +431,8 @@ impl ZoneInfoNames {
             }
             drop(inner); // unlock
         }
+        #[cfg(jiff_verif)]
+        crate::__verif::event(crate::__verif::ZONEINFO_NAMES_BETWEEN_LOCKS);
         let mut inner = self.inner.write().unwrap();
         inner.attempt_refresh();
         inner.get(query)
@@ -473,6 +489,8 @@ impl ZoneInfoNamesInner {
     fn refresh(&mut self) {
         // PERF: Should we try to move this `walk` call to run outside of a
         // lock? It probably happens pretty rarely, so it might not matter.
+        #[cfg(jiff_verif)]
+        crate::__verif::event(crate::__verif::ZONEINFO_NAMES_REFRESH);
         let result = walk(&self.dir);
         self.expiration = Expiration::after(self.ttl);
         match result {
